@@ -307,7 +307,7 @@ def plan(tier, seed):
          _alphabet(CORE, FAULTS, RO), 2),
         (corner("awk", prefix=A.GL, qubits=3, max_seq=400, name="awk-400", **BASE_LIMITS),
          _alphabet(core_small, FAULTS, {k: v for k, v in RO.items() if "draw" not in k}), 3),
-        (corner("unit8", prefix=[("declare", "m", "mw_global")], qubits=3, name="xy", max_amp=20.0),
+        (corner("unit8", prefix=[("declare", "m", "mw_global")], qubits=3, name="xy", max_amp=20.0, qid_alias={"q0": "z", "q1": "a", "q2": "m"}),
          _alphabet(XY_CORE, XY_FAULTS, RO), 3),
     ]
     if tier == "thorough":
